@@ -327,13 +327,13 @@ impl<'a, P: Pe<'a>> By<'a, P> {
 		match self.name_indices.iter().position(|&i| i as usize == index) {
 			Some(hint) => {
 				// Lookup the name
-				let name_rva = self.names[hint];
+				let &name_rva = self.names.get(hint).ok_or(Error::Bounds)?;
 				let name = self.exp.pe.derva_c_str(name_rva)?;
 				Ok(Import::ByName { hint, name })
 			},
 			None => {
 				// Name not found
-				let ord = (index as u32 + self.exp.image.Base) as Ordinal;
+				let ord = (index as u32).wrapping_add(self.exp.image.Base) as Ordinal;
 				Ok(Import::ByOrdinal { ord })
 			},
 		}
